@@ -893,6 +893,9 @@ class Flow:
                     conj.append(ctx.formula(A["c"]))
                 elif child is A.get("e"):
                     conj.append(Not(ctx.formula(A["c"])))
+                if child is not A.get("c"):
+                    for x in uncond_subnodes(A["c"]):
+                        conj.extend(self._node_fact(x))
             elif k == "bin" and A["op"] in ("&&", "||") and child is A["r"]:
                 f = ctx.formula(A["l"])
                 conj.append(f if A["op"] == "&&" else Not(f))
